@@ -99,6 +99,8 @@ class UntypedAtomic(AnyAtomicType):
                 return op(self.value, other)
             case Decimal():
                 return op(get_double(self.value, self._xsd_version), float(other))
+            case float():
+                return op(get_double(self.value, self._xsd_version), other)
             case AnyAtomicType():
                 if hasattr(other, 'make'):
                     return op(type(other).make(self.value, parser=self.parser), other)
